@@ -16,8 +16,8 @@ variable {α : Type} [CommRing α]
 constructors, arbitrary nesting (AddedDiag / Triangular / LowRankRootAddedDiag recurse into their
 components), Sum flattening, Kronecker → KroneckerProductAddedDiag / SumKronecker, root operands
 through `add_low_rank`.  A `.ok` result is never a wrong value. -/
-theorem add_value (a b r : Op α) (h : add a b = .ok r) (i j : Nat) :
-    r.denote i j = a.denote i j + b.denote i j := add_refines a b r h i j
+theorem add_value (a b r : Op α) (h : add a b = .ok r) (i j : Nat) (hi : i < a.rows) :
+    r.denote i j = a.denote i j + b.denote i j := add_refines a b r h i j hi
 
 /-- **Zero is absorbed**: `Zero + b` is `b` itself and `a + Zero` is `a` itself for the classes whose
 ladder ends in the base class or in `SumLinearOperator.__add__` (no wrapper object is built). -/
@@ -30,12 +30,18 @@ theorem add_zero_absorb_sum (a : Op α) (n m : Nat) : sumAdd a (.zero n m) = .ok
 /-- **`add_diagonal` adds `diag(d)`** for the three accepted shapes of `d`, for every class (Diag stays
 Diag, Kronecker → KroneckerProductAddedDiag, LowRankRoot → LowRankRootAddedDiag, Triangular and the
 AddedDiag family recurse, Zero becomes a Diag, everything else becomes an AddedDiag). -/
-theorem addDiagonal_value (a r : Op α) (g : DiagArg α) (h : addDiagonal a g = .ok r) (i j : Nat) :
-    r.denote i j = a.denote i j + (if i = j then g.fn i else 0) := addDiagonal_refines a r g h i j
+theorem addDiagonal_value (a r : Op α) (g : DiagArg α) (h : addDiagonal a g = .ok r) (i j : Nat) (hi : i < a.rows) :
+    r.denote i j = a.denote i j + (if i = j then g.fn i else 0) := addDiagonal_refines a r g h i j hi
+
+/-- size-1 corner: a full diagonal of a 1×1 operator is a length-1 tensor, which the code treats as a constant
+diagonal (`diag.shape[-1] != 1` is false) — the class is ConstantDiag, the value is the same. -/
+theorem addDiagonal_one_by_one (t : NMat α) (d : Nat → α) :
+    addDiagonal (.dense 1 1 t) (.full d) = .ok (.addedDiag (.dense 1 1 t) (.constDiag 1 (d 0))) := by
+  simp [addDiagonal, isDiag, rows, cols, isKron, isLowRankRoot, DiagArg.toOp, mkAddedDiag]
 
 /-- **`add_jitter` adds `c·I`**, including the Toeplitz override that only touches the first column entry. -/
-theorem addJitter_value (a r : Op α) (c : α) (h : addJitter a c = .ok r) (i j : Nat) :
-    r.denote i j = a.denote i j + (if i = j then c else 0) := addJitter_refines a r c h i j
+theorem addJitter_value (a r : Op α) (c : α) (h : addJitter a c = .ok r) (i j : Nat) (hi : i < a.rows) :
+    r.denote i j = a.denote i j + (if i = j then c else 0) := addJitter_refines a r c h i j hi
 
 /-- **`a @ b` for an operator `b`** (rows of the result inside `a`'s row range): the structured results of
 `Zero.matmul`, `Identity.matmul`, `ConstantDiag.matmul`, `Diag.matmul` (× Dense, × Triangular(Dense),
@@ -50,9 +56,10 @@ theorem mkMul_value (a b : Op α) (i j : Nat) : (mkMul a b).denote i j = a.denot
 
 /-- **`a - b` denotes `⟦a⟧ - ⟦b⟧`** (`self + other.mul(-1)`; includes `X - Zero` since fix 63d7878), for every
 pair of classes; `S` supplies the positivity test and square root used for root folding. -/
-theorem sub_value (S : ScalarOps α) (hS : SqrtLaw S) (a b r : Op α) (h : sub S a b = .ok r) (i j : Nat) :
+theorem sub_value (S : ScalarOps α) (hS : SqrtLaw S) (a b r : Op α) (h : sub S a b = .ok r) (i j : Nat)
+    (hi : i < a.rows) :
     r.denote i j = a.denote i j - b.denote i j := by
-  rw [sub_refines S hS a b r h]; ring
+  rw [sub_refines S hS a b r h i j hi]; ring
 
 /-- **Multiplication by a constant** (python number, 0-d tensor …) denotes the scaled matrix whatever the class
 does with it: Diag/ConstantDiag/Identity/KroneckerProductDiag rescale their diagonal, Triangular and the Sum family
